@@ -21,8 +21,18 @@ __CPROVER_ensures(!__CPROVER_return_value || (self->num_encoded_symbols <= self-
 __CPROVER_ensures(!__CPROVER_return_value || self->num_encoded_split_symbols <= self->num_encoded_symbols)
 __CPROVER_assigns(self->buffer->pos_, self->num_encoded_vertices_, self->num_faces, self->num_encoded_vertices, self->num_encoded_symbols, self->num_encoded_split_symbols);
 
+/* kd-tree output iterator: a decoded point may only be stored into an attribute value slot that exists (C02/C03).  PointAttribute is a stub:
+ * mapped_index returns ANY index (the map is stream controlled for legacy streams), SetAttributeValue requires the slot to exist. */
+uint32_t PA_mapped_index(const struct PAStub *a, uint32_t point_id) __CPROVER_ensures(1) __CPROVER_assigns();
+uint32_t PA_size(const struct PAStub *a) __CPROVER_ensures(__CPROVER_return_value == a->size) __CPROVER_assigns();
+void PA_SetAttributeValue(struct PAStub *a, uint32_t avi, const void *value) __CPROVER_requires(avi < a->size) __CPROVER_assigns();
+void KdOutIt_assign_vec3(struct KdOutIt *self, const uint32_t *val)
+__CPROVER_requires(__CPROVER_is_fresh(self, sizeof(struct KdOutIt)) && __CPROVER_is_fresh(self->attributes_, sizeof(struct AttTuple)) && __CPROVER_is_fresh(self->attributes_[0].attribute, sizeof(struct PAStub)) && __CPROVER_is_fresh(val, 12) && self->attributes_[0].offset == 0)
+__CPROVER_assigns();
+
 #ifdef VERIF_CBMC
 #include "guards_slice.c"
+void h_enf_KdOutIt_assign_vec3(void) { GHOSTS(); struct KdOutIt *it; const uint32_t *v; KdOutIt_assign_vec3(it, v); HARNESS_END(); }
 void h_enf_AttributesDecoder_Prologue(void) { GHOSTS(); struct GuardCtx *c; struct DecoderBuffer *b; AttributesDecoder_Prologue(c, b); HARNESS_END(); }
 void h_enf_Edgebreaker_Header(void) { GHOSTS(); struct GuardCtx *c; Edgebreaker_Header(c); HARNESS_END(); }
 #endif
